@@ -708,6 +708,38 @@ func multipartEncodeQP(v gen.S, qp bool) (string, []byte) {
 	return mw.FormDataContentType(), buf.Bytes()
 }
 
+// multipartEncodeBare writes every part with a Content-Disposition only and the value as plain text (ok is false when a
+// value is not a primitive or a list of primitives).
+func multipartEncodeBare(v gen.S) ([]byte, bool) {
+	var buf bytes.Buffer
+	mw := multipart.NewWriter(&buf)
+	mw.SetBoundary("vxBoundary7MA4YWxkTrZu0gW")
+	ok := true
+	write := func(k string, e any) {
+		switch e.(type) {
+		case string, float64, bool:
+		default:
+			ok = false
+			return
+		}
+		h := textproto.MIMEHeader{}
+		h.Set("Content-Disposition", fmt.Sprintf(`form-data; name=%q`, k))
+		pw, _ := mw.CreatePart(h)
+		pw.Write([]byte(gen.Prim(e)))
+	}
+	for _, k := range sortedKeys(v) {
+		if arr, isArr := v[k].([]any); isArr {
+			for _, e := range arr {
+				write(k, e)
+			}
+		} else {
+			write(k, v[k])
+		}
+	}
+	mw.Close()
+	return buf.Bytes(), ok
+}
+
 func c06Forms(c *core.Ctx, fs c06form) {
 	content := gen.S{
 		"application/x-www-form-urlencoded": gen.S{"schema": fs.schema},
@@ -735,6 +767,10 @@ func c06Forms(c *core.Ctx, fs c06form) {
 		mct, mbody := multipartEncode(v)
 		_, qpBody := multipartEncodeQP(v, true)
 		encs := []enc{{"urlencoded", "application/x-www-form-urlencoded", []byte(formEncode(v))}, {"multipart", mct, mbody}, {"multipart(quoted-printable parts)", mct, qpBody}}
+		if bare, ok := multipartEncodeBare(v); ok {
+			// every part without a Content-Type of its own, its value as plain text: what browsers and curl -F send
+			encs = append(encs, enc{"multipart(parts without content type)", mct, bare})
+		}
 		for _, e := range encs {
 			if len(e.body) == 0 {
 				continue // an empty object has no urlencoded body distinct from "no body"
